@@ -151,6 +151,10 @@ def run(ctx):
         pick = rng.sample(seqs, min(per_kind, len(seqs)))
         for i, sq in enumerate(pick):
             scripts.append(to_script(rng, kinds, sq, PREFIXES[i % len(PREFIXES)]))
+    # a second PLI-enabled stream bound before the loop exists blocks (known finding); Close must still release it and return
+    for kinds in (["pli"], ["pli", "nackgen", "rrecv"], ["stats", "pli"]):
+        for sq in (["bindm", "bindm", "close"], ["bindm", "bindm", "bindw", "wait", "close"], ["bindm", "bindm", "bindr", "close"]):
+            scripts.append(to_script(rng, kinds, sq, []))
     rng.shuffle(scripts)
     # several test processes in parallel would complicate the goroutine census; run in chunks instead
     chunk = 700
